@@ -18,7 +18,7 @@ func methodOption(args slip.List, p *slip.Printer) Node {
 	var mo MethodOption
 	// expect name [qualifier] specifiers [doc] forms*
 	if sym, _ := args[0].(slip.Symbol); 0 < len(sym) {
-		mo.qual = &Leaf{text: []byte(sym)}
+		mo.qual = &Leaf{text: sym.Readably(nil, p)}
 		args = args[1:]
 	}
 	mo.sll = argsFromList(args[0], p)
